@@ -12,7 +12,7 @@
  * channel.to_choi / to_liouville (row, column) / to_pauli_liouville describe that same map;
  * histories interleaving representation queries and executions: every execution gives the same map.
 """
-STATIC = ["C04/LiftTP", "C04/Props"]
+STATIC = ["C04/LiftTP", "C04/LiftFast", "C04/Object", "C04/Props"]
 import itertools
 import math
 import random
@@ -60,6 +60,21 @@ def parse_zmat(s):
     d = int(round(len(vals) ** 0.5))
     assert d * d == len(vals), "not a square matrix"
     return np.array(vals).reshape(d, d)
+
+
+def obj_state(ch):
+    """the attributes of a channel object that the executions read (C04/Object.v: coefficients, gates, coefficient_sum)"""
+    from qibo.backends import _check_backend
+    be = _check_backend(None)
+
+    def gsig(g):
+        try:
+            m = np.asarray(g.matrix(be))
+            return (type(g).__name__, tuple(g.qubits), m.shape, m.tobytes())
+        except Exception:  # noqa: BLE001
+            return (type(g).__name__, tuple(g.qubits))
+    return (tuple(float(c) for c in ch.coefficients), tuple(gsig(g) for g in ch.gates),
+            float(getattr(ch, "coefficient_sum", 0.0)), tuple(ch.target_qubits))
 
 
 def run_dm(channel, n, rho):
@@ -260,7 +275,7 @@ def main(run):
                     "C04/ChannelSpec.v executable spec (hand-written from the documented formulas)",
                     "numeric comparison (1e-14) of constructor-built Kraus operators with the documented lists: sqrt/exp are irreducibly real"]
     run.assumptions += ["exact real arithmetic in the theorems; correspondence data are integers/dyadics so floats are exact"]
-    for t in vcore.props_theorems("C04/Props.v"):
+    for t in vcore.props_theorems("C04/Props.v") + vcore.props_theorems("C04/Object.v"):
         run.oblige(t, True, "static-theorem")
     ok, pa = vcore.static_assumptions("C04/Props")
     run.notes["print_assumptions"] = {k: v[:200] for k, v in pa.items()}
@@ -280,10 +295,25 @@ def main(run):
         ch = cs["build"]()
         hist = []
         # history: optionally query representations before / between executions
-        script = rng.choice([["exec"], ["choi", "exec"], ["exec", "liouville", "exec"], ["pauli", "choi", "exec", "exec"]])
+        script = rng.choice([["exec"], ["choi", "exec"], ["exec", "liouville", "exec"], ["pauli", "choi", "exec", "exec"],
+                             ["sv", "choi", "sv", "exec"], ["liouville", "pauli", "sv", "exec"]])
         okc, detail = True, None
+        st0 = obj_state(ch)
+        mutated = None
         for step in script:
             try:
+                if step == "sv":        # state-vector sampling path (UnitaryChannel family only)
+                    from qibo.backends import _check_backend
+                    psi = np.zeros(2 ** cs["n"], dtype=complex)
+                    psi[0] = 1.0
+                    try:
+                        ch.apply(_check_backend(None), psi, cs["n"])
+                    except NotImplementedError:
+                        pass
+                    hist.append(step)
+                    if mutated is None and obj_state(ch) != st0:
+                        mutated = step
+                    continue
                 if step == "exec":
                     got = run_dm(ch, cs["n"], rho) * cs["scale"]
                     if got.shape != want.shape or np.abs(got - want).max() > 1e-7:
@@ -299,6 +329,12 @@ def main(run):
                 okc, detail = False, {"step": step, "history": hist + [step], "error": f"{type(e).__name__}: {e}"}
                 break
             hist.append(step)
+            if mutated is None and obj_state(ch) != st0:
+                mutated = step
+        # attribute-level comparison with the state machine C04/Object.v: no operation writes the object
+        check(run, f"object_state:{cs['kind']}", mutated is None,
+               {"class": cs["kind"], "n": cs["n"], "qubits": [list(q) for q in cs["qubits"]], "history": script,
+                "first_mutating_operation": mutated})
         views_bad = []
         if okc and cs["kind"] != "KrausChannel" or (okc and cs["kind"] == "KrausChannel"):
             try:
